@@ -10,8 +10,9 @@ THEOREMS = {
     "C03": _T,
     "C20": ["Backend.C20U_empty_test_sound_run", "Backend.C20U_empty_test_sound", "Backend.C03U_shrink_keeps", "Backend.UQ.TI.empty_sound"],
     "C09": ["Backend.C09U_blocked_call_granted_after_drain", "Backend.C09U_drain_publishes", "Backend.qPrepareWrite_drained",
-            "Backend.C09U_parked_call_resumes_partial", "Backend.uPrepareWrite_drained_grants"],
+            "Backend.C09U_parked_call_resumes_partial", "Backend.C09U_reads_committed", "Backend.C09U_parked_call_resumes_drained",
+            "Backend.C09U_fresh_state", "Backend.US.pi_closed", "Backend.US.uRead_complete", "Backend.uPrepareWrite_drained_grants"],
 }
-MODULES = {"C03": ["QuillModel.Props.C03U"], "C20": ["QuillModel.Props.C03U"], "C09": ["QuillModel.Props.C03U", "QuillModel.Props.C09U"]}
+MODULES = {"C03": ["QuillModel.Props.C03U"], "C20": ["QuillModel.Props.C03U"], "C09": ["QuillModel.Props.C03U", "QuillModel.Props.C09U", "QuillModel.Backend.UProg"]}
 OBLIG = []
 OBLIG_BY_PROP = {}
